@@ -489,10 +489,51 @@ func (e *Exec) mergeVal(c *Term, a, b Val) Val {
 			return &IfaceIte{C: c, A: x, B: y}
 		}
 	}
+	if x, ok := a.(*MapData); ok {
+		if y, ok := b.(*MapData); ok {
+			return e.mergeMapData(c, x, y)
+		}
+	}
 	if e.valEq(a, b) {
 		return a
 	}
 	return &Poison{Why: fmt.Sprintf("unmergeable values %T / %T", a, b)}
+}
+
+// mergeMapData merges two association lists: entries with the same key value are merged,
+// the others are present only on their own side. At most one present entry equals any key
+// on either side, and the two sides are exclusive, so the invariant of the list is kept.
+func (e *Exec) mergeMapData(c *Term, a, b *MapData) Val {
+	s := e.S
+	n := &MapData{Typ: a.Typ}
+	usedB := make([]bool, len(b.Keys))
+	for i, k := range a.Keys {
+		j := -1
+		for jj, kb := range b.Keys {
+			if !usedB[jj] && (sameVal(k, kb) || e.valEq(k, kb)) {
+				j = jj
+				break
+			}
+		}
+		n.Keys = append(n.Keys, k)
+		if j < 0 {
+			n.Vals = append(n.Vals, a.Vals[i])
+			n.Pres = append(n.Pres, s.And(c, e.pres(a, i)))
+			continue
+		}
+		usedB[j] = true
+		n.Vals = append(n.Vals, e.mergeVal(c, a.Vals[i], b.Vals[j]))
+		n.Pres = append(n.Pres, s.Ite(c, e.pres(a, i), e.pres(b, j)))
+	}
+	for j, kb := range b.Keys {
+		if usedB[j] {
+			continue
+		}
+		n.Keys = append(n.Keys, kb)
+		n.Vals = append(n.Vals, b.Vals[j])
+		n.Pres = append(n.Pres, s.And(s.Not(c), e.pres(b, j)))
+	}
+	return n
 }
 
 // IfaceIte: interface value whose dynamic type depends on a condition
